@@ -613,3 +613,211 @@ Proof.
   unfold lo' in Vlo, Dlo. unfold hi', vlen in Vhi, Dhi. unfold lo', vlen. unfold oq in *.
   rewrite Vlo, Vhi. cbn [fst snd]. rewrite Dlo, Dhi. reflexivity.
 Qed.
+
+(* ------------------------------------------------------------------ the preludes and the loop nests *)
+
+Lemma concat_embed (v : volume) : concat (concat (xvolume v)) = xcurve (concat (concat v)).
+Proof. unfold xvolume, xcurve. rewrite !concat_map. reflexivity. Qed.
+
+Lemma nanmin3_embed v : np_nanmin3 (xvolume v) = of_oq (vol_min v).
+Proof. unfold np_nanmin3, vol_min. rewrite concat_embed. apply np_nanmin_embed. Qed.
+Lemma nanmax3_embed v : np_nanmax3 (xvolume v) = of_oq (vol_max v).
+Proof. unfold np_nanmax3, vol_max. rewrite concat_embed. apply np_nanmax_embed. Qed.
+
+Lemma shape3_embed v : shape3 (xvolume v)
+  = (Z.of_nat (length v), Z.of_nat (length (hd [] v)), Z.of_nat (length (hd [] (hd [] v)))).
+Proof.
+  unfold shape3, xvolume, xcurve, vlen. destruct v as [|[|c r] rows]; cbn [map hd length]; rewrite ?map_length; reflexivity.
+Qed.
+
+Lemma chunks_flat {A B : Type} (g : A -> list B) n xs : (forall x, length (g x) = n) ->
+  chunks (length xs) n (flat_map g xs) = map g xs.
+Proof.
+  intro H. induction xs as [|x r IH]; [reflexivity|]. cbn [length chunks flat_map map].
+  rewrite firstn_app, skipn_app, (H x), Nat.sub_diag, firstn_O, skipn_O, app_nil_r.
+  rewrite <- (H x) at 1. rewrite firstn_all.
+  replace (skipn n (g x)) with (@nil B) by (symmetry; apply skipn_all2; rewrite H; lia).
+  cbn [app]. rewrite IH. reflexivity.
+Qed.
+
+Lemma columns_repeat {A : Type} n (xs : list A) : columns n (map (fun x => repeat x n) xs) = repeat xs n.
+Proof.
+  revert xs. induction n as [|n IH]; intro xs; [reflexivity|]. cbn [columns repeat]. f_equal.
+  - clear IH. induction xs as [|x r IHx]; [reflexivity|]. cbn [map flat_map repeat app]. rewrite IHx. reflexivity.
+  - rewrite map_map. cbn [repeat tl]. apply IH.
+Qed.
+
+Lemma map_repeat' {A B : Type} (f : A -> B) x n : map f (repeat x n) = repeat (f x) n.
+Proof. induction n; simpl; congruence. Qed.
+
+(* two_dim_etas = np.repeat(etas, nb_disps).reshape((-1, nb_disps)).T.flatten() is the eta samples tiled *)
+Lemma gen_two_dim_etas etas nd : (0 < nd)%nat ->
+  exists m, v_reshape_m1 (np_repeat (xetas etas) (Z.of_nat nd)) (Z.of_nat nd) = Some m
+            /\ m_flatten (m_T m) = two_dim nd etas.
+Proof.
+  intro Hnd. unfold v_reshape_m1, vlen. rewrite np_repeat_length.
+  replace ((0 <? Z.of_nat nd) && (Z.of_nat (length (xetas etas) * nd) mod Z.of_nat nd =? 0)) with true.
+  2:{ symmetry. rewrite andb_true_iff, Z.ltb_lt, Z.eqb_eq, Nat2Z.inj_mul, Z.mod_mul by lia. lia. }
+  eexists. split; [reflexivity|]. unfold m_T, m_flatten. cbn [mcols mrows].
+  rewrite Nat2Z.inj_mul, Z.div_mul, !Nat2Z.id by lia. unfold np_repeat. rewrite Nat2Z.id.
+  rewrite chunks_flat by (intro; apply repeat_length). rewrite columns_repeat.
+  unfold two_dim, xetas, tile. rewrite concat_map, map_repeat'. reflexivity.
+Qed.
+
+Lemma omap_Forall2 {A B C : Type} (f : A -> option B) (g : A -> C) (R : B -> C -> Prop) l :
+  (forall x, In x l -> exists y, f x = Some y /\ R y (g x)) ->
+  exists ys, omap f l = Some ys /\ Forall2 R ys (map g l).
+Proof.
+  induction l as [|x r IH]; intro H; [exists []; split; [reflexivity|constructor]|].
+  destruct (H x (or_introl eq_refl)) as (y & E & Ry).
+  destruct IH as (ys & E' & Rs); [intros; apply H; right; assumption|].
+  exists (y :: ys). cbn [omap map]. rewrite E, E'. split; [reflexivity|constructor; assumption].
+Qed.
+
+Lemma omap_map {A A' B : Type} (f : A' -> option B) (h : A -> A') l : omap f (map h l) = omap (fun x => f (h x)) l.
+Proof. induction l; simpl; [reflexivity|]. rewrite IHl. reflexivity. Qed.
+
+Lemma omap2_Forall2 {A A' B C : Type} (f : A' -> option B) (h : A -> A') (g : A -> C) (R : B -> C -> Prop) (m : list (list A)) :
+  (forall row x, In row m -> In x row -> exists y, f (h x) = Some y /\ R y (g x)) ->
+  exists ys, omap2 f (map (map h) m) = Some ys /\ Forall2 (Forall2 R) ys (map (map g) m).
+Proof.
+  intro H. unfold omap2. rewrite omap_map.
+  apply (omap_Forall2 (fun row => omap f (map h row)) (map g) (Forall2 R)).
+  intros row Hrow. rewrite omap_map. apply omap_Forall2. intros x Hx. apply (H row x Hrow Hx).
+Qed.
+
+Lemma Forall2_len {A B : Type} (R : A -> B -> Prop) l l' : Forall2 R l l' -> length l = length l'.
+Proof. induction 1; simpl; congruence. Qed.
+
+Lemma ozip_Forall2 {A A' B C D : Type} (f : A' -> B -> option C) (h : A -> A') (g : A -> D) (R : C -> D -> Prop)
+      (Rb : B -> A -> Prop) l lb :
+  Forall2 Rb lb l ->
+  (forall x y, In x l -> Rb y x -> exists z, f (h x) y = Some z /\ R z (g x)) ->
+  exists zs, ozip f (map h l) lb = Some zs /\ Forall2 R zs (map g l).
+Proof.
+  intros HF H. unfold ozip. rewrite map_length, <- (Forall2_len _ _ _ HF), Nat.eqb_refl.
+  induction HF as [|y x lb l Hyx HF IH]; [exists []; split; [reflexivity|constructor]|].
+  destruct (H x y (or_introl eq_refl) Hyx) as (z & E & Rz).
+  destruct IH as (zs & E' & Rs); [intros; eapply H; [right|]; eassumption|].
+  exists (z :: zs). cbn [map combine omap fst snd]. rewrite E, E'. split; [reflexivity|constructor; assumption].
+Qed.
+
+Lemma ozip2_Forall2 {A A' B C D : Type} (f : A' -> B -> option C) (h : A -> A') (g : A -> D) (R : C -> D -> Prop)
+      (Rb : B -> A -> Prop) (m : list (list A)) mb :
+  Forall2 (Forall2 Rb) mb m ->
+  (forall row x y, In row m -> In x row -> Rb y x -> exists z, f (h x) y = Some z /\ R z (g x)) ->
+  exists zs, ozip2 f (map (map h) m) mb = Some zs /\ Forall2 (Forall2 R) zs (map (map g) m).
+Proof.
+  intros HF H. unfold ozip2.
+  apply (ozip_Forall2 (ozip f) (map h) (map g) (Forall2 R) (Forall2 Rb) m mb HF).
+  intros row rb Hrow Hrb. apply (ozip_Forall2 f h g R Rb row rb Hrb). intros x y Hx Hy. apply (H row x y Hrow Hx Hy).
+Qed.
+
+Lemma Forall2_map_l {A B C : Type} (R : B -> C -> Prop) (f : A -> B) l l' :
+  Forall2 (fun x y => R (f x) y) l l' -> Forall2 R (map f l) l'.
+Proof. induction 1; simpl; constructor; auto. Qed.
+
+Lemma Forall2_impl {A B : Type} (R R' : A -> B -> Prop) l l' : (forall x y, R x y -> R' x y) -> Forall2 R l l' -> Forall2 R' l l'.
+Proof. intro H. induction 1; constructor; auto. Qed.
+
+Lemma Forall2_eq {A : Type} (l l' : list A) : Forall2 eq l l' -> l = l'.
+Proof. induction 1; congruence. Qed.
+
+Lemma gen_risk_pixel_eq' mn mx etas c : ~ (mn == mx)%Q ->
+  exists a b, G.compute_risk_pixel (XFin mn) (XFin mx) (vlen c) (xetas etas) (two_dim (length c) etas) (xcurve c)
+                                   (v_ofz (samp_pixel mn mx etas c)) (XFin 0) (XFin 0) = Some (a, b)
+              /\ xeq a (of_oq (fst (risk_pixel mn mx etas c))) /\ xeq b (of_oq (snd (risk_pixel mn mx etas c))).
+Proof.
+  intro Hs. destruct (gen_samp_pixel_eq mn mx etas c Hs) as (r0 & Hsamp & _).
+  pose proof (gen_risk_pixel_eq mn mx etas c Hs) as H. unfold grisk_pixel in H. rewrite Hsamp in H. exact H.
+Qed.
+
+Section WholeKernels.
+  Variables (v : volume) (a b : Q) (etas : list Q) (nd : nat).
+  Hypothesis Ia : In (Some a) (concat (concat v)).
+  Hypothesis Ib : In (Some b) (concat (concat v)).
+  Hypothesis Ne : ~ (a == b)%Q.
+  Hypothesis Hnd : (0 < nd)%nat.
+  Hypothesis Hsh : vol_shape nd v.
+
+  Lemma span_ne mn mx : (mn < mx)%Q -> ~ (mn == mx)%Q.
+  Proof. intros H E. rewrite E in H. apply (Qlt_irrefl _ H). Qed.
+
+  Theorem gen_amb_map_eq :
+    exists m, G.compute_ambiguity (xvolume v) (xetas etas) = Some m
+              /\ Forall2 (Forall2 xeq) m (map (map xofz) (amb_map etas v)).
+  Proof.
+    destruct (maps_are_pixelwise v a b etas 0%Q 0%Q [] Ia Ib Ne) as (mn & mx & Emn & Emx & Hlt & Eamb & _ & _).
+    unfold G.compute_ambiguity. rewrite nanmin3_embed, nanmax3_embed, shape3_embed, Emn, Emx.
+    destruct Hsh as [Hhd Hall]. rewrite Hhd. cbn [of_oq].
+    destruct (gen_two_dim_etas etas nd Hnd) as (m0 & E0 & E1). rewrite E0, E1, Eamb, map_map.
+    unfold xvolume. rewrite (map_ext _ _ (fun row => map_map (amb_pixel mn mx etas) xofz row)).
+    apply (omap2_Forall2 _ xcurve (fun c => xofz (amb_pixel mn mx etas c)) xeq).
+    intros row c Hrow Hc. rewrite <- (Hall row c Hrow Hc).
+    apply (gen_amb_pixel_eq mn mx etas c (span_ne _ _ Hlt)).
+  Qed.
+
+  (* the sampled ambiguity kernel: the ambiguity again and, per pixel, the sampled ambiguity of the model *)
+  Theorem gen_samp_map_eq :
+    exists mn mx M, vol_min v = Some mn /\ vol_max v = Some mx /\ (mn < mx)%Q
+      /\ G.compute_ambiguity_and_sampled_ambiguity (xvolume v) (xetas etas) = Some M
+      /\ Forall2 (Forall2 (fun p c => xeq (fst p) (xofz (amb_pixel mn mx etas c))
+                                      /\ snd p = v_ofz (samp_pixel mn mx etas c))) M v.
+  Proof.
+    destruct (maps_are_pixelwise v a b etas 0%Q 0%Q [] Ia Ib Ne) as (mn & mx & Emn & Emx & Hlt & _).
+    exists mn, mx. unfold G.compute_ambiguity_and_sampled_ambiguity.
+    rewrite nanmin3_embed, nanmax3_embed, shape3_embed, Emn, Emx.
+    destruct Hsh as [Hhd Hall]. rewrite Hhd. cbn [of_oq].
+    destruct (gen_two_dim_etas etas nd Hnd) as (m0 & E0 & E1). rewrite E0, E1.
+    destruct (omap2_Forall2
+                (fun cv_rc => G.compute_ambiguity_and_sampled_ambiguity_pixel (XFin mn) (XFin mx) (Z.of_nat nd) (xetas etas)
+                                (two_dim nd etas) cv_rc (XFin 0) (np_zeros (vlen (xetas etas))))
+                xcurve (fun c => c)
+                (fun p c => xeq (fst p) (xofz (amb_pixel mn mx etas c)) /\ snd p = v_ofz (samp_pixel mn mx etas c)) v)
+      as (M & EM & HM).
+    { intros row c Hrow Hc. rewrite <- (Hall row c Hrow Hc).
+      destruct (gen_samp_pixel_eq mn mx etas c (span_ne _ _ Hlt)) as (r & E & X).
+      eexists. split; [exact E|]. split; [exact X|reflexivity]. }
+    exists M. repeat split; auto.
+    rewrite (map_ext _ _ (fun row => map_id row)), map_id in HM. exact HM.
+  Qed.
+
+  Theorem gen_risk_map_eq :
+    exists m, grisk_map v etas = Some m /\ Forall2 (Forall2 xeq2) m (map (map xpair) (risk_map etas v)).
+  Proof.
+    destruct gen_samp_map_eq as (mn & mx & M & Emn & Emx & Hlt & EM & HM).
+    destruct (maps_are_pixelwise v a b etas 0%Q 0%Q [] Ia Ib Ne) as (mn' & mx' & Emn' & Emx' & _ & _ & Erisk & _).
+    rewrite Emn in Emn'. rewrite Emx in Emx'. inversion Emn'; inversion Emx'; subst mn' mx'.
+    unfold grisk_map. rewrite EM. unfold G.compute_risk.
+    rewrite nanmin3_embed, nanmax3_embed, shape3_embed, Emn, Emx.
+    destruct Hsh as [Hhd Hall]. rewrite Hhd. cbn [of_oq].
+    destruct (gen_two_dim_etas etas nd Hnd) as (m0 & E0 & E1). rewrite E0, E1, Erisk, map_map.
+    rewrite (map_ext _ _ (fun row => map_map (risk_pixel mn mx etas) xpair row)).
+    apply (ozip2_Forall2 _ xcurve (fun c => xpair (risk_pixel mn mx etas c)) xeq2
+                         (fun s c => s = v_ofz (samp_pixel mn mx etas c))).
+    - apply Forall2_map_l. eapply Forall2_impl; [|exact HM]. intros r0 row0 H0.
+      apply Forall2_map_l. eapply Forall2_impl; [|exact H0]. intros p c [_ Hp]. exact Hp.
+    - intros row c s Hrow Hc Hs'. subst s. rewrite <- (Hall row c Hrow Hc).
+      destruct (gen_risk_pixel_eq' mn mx etas c (span_ne _ _ Hlt)) as (ra & rb & E & Xa & Xb).
+      eexists. split; [exact E|]. split; assumption.
+  Qed.
+
+  Theorem gen_bounds_map_eq argsort tf thr disps : argsort_ok argsort -> length disps = nd ->
+    G.compute_interval_bounds argsort (xvolume v) (xetas disps) (XFin thr) (XFin tf)
+    = Some (map (map xpair) (bounds_map tf thr disps v)).
+  Proof.
+    intros Hsort Hd.
+    destruct (maps_are_pixelwise v a b etas tf thr disps Ia Ib Ne) as (mn & mx & Emn & Emx & Hlt & _ & _ & Eb).
+    unfold G.compute_interval_bounds. rewrite nanmin3_embed, nanmax3_embed, shape3_embed, Emn, Emx.
+    destruct Hsh as [Hhd Hall]. rewrite Hhd. cbn [of_oq]. rewrite Eb, map_map.
+    rewrite (map_ext _ _ (fun row => map_map (bounds_pixel mn mx tf thr disps) xpair row)).
+    destruct (omap2_Forall2
+                (fun cv_rc => G.compute_interval_bounds_pixel argsort (xetas disps) (XFin thr) (XFin tf) (XFin mn) (XFin mx)
+                                (Z.of_nat nd) cv_rc (xofz 0) (xofz 0))
+                xcurve (fun c => xpair (bounds_pixel mn mx tf thr disps c)) eq v) as (ys & E & HF).
+    { intros row c Hrow Hc. eexists. split; [|reflexivity]. rewrite <- (Hall row c Hrow Hc).
+      apply (gen_bounds_pixel_eq argsort mn mx tf thr disps c Hsort (span_ne _ _ Hlt)).
+      rewrite Hd. symmetry. apply (Hall row c Hrow Hc). }
+    unfold xvolume. rewrite E. f_equal. apply Forall2_eq. eapply Forall2_impl; [|exact HF]. intros. apply Forall2_eq. assumption.
+  Qed.
+End WholeKernels.
